@@ -473,11 +473,16 @@ const (
 
 // oracleH: what an accepted well-formed header-path case must satisfy
 func oracleH(hc *HCase, hb *hbuilt) []string {
+	ws := oracleHAccept(hc, hb)
+	if anyCredentialDiffers(&hc.C) {
+		ws = append([]string{whatVrfDiffers}, ws...)
+	}
+	return ws
+}
+
+func oracleHAccept(hc *HCase, hb *hbuilt) []string {
 	if hc.Verdict == 11 {
 		return nil // a crash is an outcome of its own, not an acceptance
-	}
-	if anyCredentialDiffers(&hc.C) {
-		return []string{whatVrfDiffers}
 	}
 	if hc.Verdict != 0 || !hc.wellFormed() {
 		return nil
